@@ -2,7 +2,8 @@ package rules
 
 import "osmcheck/core"
 
-// c20Benign5: repaired spellings of the bounding-box rendering (arg-fidelity@): silent, and silent on path@.
+// c20Benign5: repaired spellings of the bounding-box rendering (arg-fidelity@: silent, also on path@) and other
+// spellings of today's 6-decimal rendering (they keep the key of the known findings, `... bounds 6-decimals`).
 func c20Benign5() []core.Mutant {
 	return []core.Mutant{
 		{Name: "map-bbox-repaired-shortest-round-trip-formatfloat", File: "osmapi/map.go",
@@ -70,6 +71,25 @@ func (ds *Datasource) Map(ctx context.Context, bounds *osm.Bounds, opts ...Featu
 		params)
 `,
 			Replace: `	url := fmt.Sprintf("%s/map?bbox=%v,%v,%v,%v&%s", ds.baseURL(),
+		bounds.MinLon, bounds.MinLat,
+		bounds.MaxLon, bounds.MaxLat,
+		params)
+`},
+		{Name: "notes-bbox-same-six-decimals-in-four-separate-sprintf-calls", File: "osmapi/note.go",
+			Find: `	params = append(params, fmt.Sprintf("bbox=%f,%f,%f,%f",
+		bounds.MinLon, bounds.MinLat,
+		bounds.MaxLon, bounds.MaxLat))
+`,
+			Replace: `	edge := func(v float64) string { return fmt.Sprintf("%f", v) }
+	params = append(params, "bbox="+edge(bounds.MinLon)+","+edge(bounds.MinLat)+","+edge(bounds.MaxLon)+","+edge(bounds.MaxLat))
+`},
+		{Name: "map-bbox-same-six-decimals-spelled-percent-dot-six-f", File: "osmapi/map.go",
+			Find: `	url := fmt.Sprintf("%s/map?bbox=%f,%f,%f,%f&%s", ds.baseURL(),
+		bounds.MinLon, bounds.MinLat,
+		bounds.MaxLon, bounds.MaxLat,
+		params)
+`,
+			Replace: `	url := fmt.Sprintf("%s/map?bbox=%.6f,%.6f,%.6f,%.6f&%s", ds.baseURL(),
 		bounds.MinLon, bounds.MinLat,
 		bounds.MaxLon, bounds.MaxLat,
 		params)
